@@ -1275,4 +1275,276 @@ theorem run_lifetime (cfg : Config) (ops : List Op) (v : Bool) (e : Int)
     simp only [Option.map_some, Option.some.injEq] at h
     rw [← h]; exact (new_facts cfg v c hc).1
 
+/-! ## the event log of a history: measurements handed to a cache, entries that left a cache -/
+
+inductive Ev
+  | stored (tm : Int) (a : String) (v : Bool)   -- a probe of `a` at `tm` answered `v` (handed to verdict v's cache)
+  | removed (a : String) (v : Bool)             -- the entry of `a` left verdict v's cache (LRU eviction or clean-up)
+deriving Repr, DecidableEq
+
+/-- the event concerns address `a` in verdict `v`'s cache -/
+def Ev.about (a : String) (v : Bool) : Ev → Bool
+  | .stored _ a' v' => a' == a && v' == v
+  | .removed a' v' => a' == a && v' == v
+
+/-- the addresses that have an entry in verdict `v`'s cache -/
+def Tester.keysOf (t : Tester) (v : Bool) : List String :=
+  match t.cacheFor v with
+  | some c => c.vmap.keys
+  | none => []
+
+/-- the addresses whose entry is in verdict `v`'s cache in `t` and no longer in `t'` -/
+def removedBy (t t' : Tester) (v : Bool) : List String :=
+  (t.keysOf v).filter (fun k => (t'.timeOf v k).isNone)
+
+/-- the events of one operation, newest first: every entry that disappeared during the operation
+(whatever made it disappear), then the measurement the operation took (if it probed) -/
+def evOf (t : Tester) (o : Op) : List Ev :=
+  (removedBy t (step t o).1 true).map (Ev.removed · true) ++
+    ((removedBy t (step t o).1 false).map (Ev.removed · false) ++
+      (probeOf t o).map (fun p => Ev.stored p.1 p.2.1 p.2.2))
+
+/-- the events of a history run from `t`, newest first, on top of `acc` -/
+def evlogFrom (t : Tester) (acc : List Ev) : List Op → List Ev
+  | [] => acc
+  | o :: os => evlogFrom (step t o).1 (evOf t o ++ acc) os
+
+/-- the newest event about address `a` in verdict `v`'s cache -/
+def lastEv (log : List Ev) (a : String) (v : Bool) : Option Ev := log.find? (Ev.about a v)
+
+theorem mem_keysOf (t : Tester) (v : Bool) (a : String) (tm : Int) (h : t.timeOf v a = some tm) :
+    a ∈ t.keysOf v := by
+  unfold Tester.timeOf at h
+  unfold Tester.keysOf
+  cases hc : t.cacheFor v with
+  | none => rw [hc] at h; cases h
+  | some c =>
+    rw [hc] at h
+    simp only [Option.bind_some] at h
+    simp only
+    rw [HashMap.mem_keys, HashMap.mem_iff_contains, HashMap.contains_eq_isSome_getElem?, h]
+    rfl
+
+theorem mem_removedBy (t t' : Tester) (v : Bool) (a : String) :
+    a ∈ removedBy t t' v ↔ a ∈ t.keysOf v ∧ t'.timeOf v a = none := by
+  unfold removedBy
+  simp only [List.mem_filter, Option.isNone_iff_eq_none]
+
+/-- the removal events of one verdict say nothing about an entry that exists after the operation -/
+theorem removedPart_quiet (t t' : Tester) (w v : Bool) (a : String) (tm : Int) (h : t'.timeOf v a = some tm) :
+    ((removedBy t t' w).map (Ev.removed · w)).find? (Ev.about a v) = none := by
+  rw [List.find?_eq_none]
+  intro x hx hab
+  obtain ⟨k, hk, rfl⟩ := List.mem_map.mp hx
+  simp only [Ev.about, Bool.and_eq_true, beq_iff_eq] at hab
+  obtain ⟨rfl, rfl⟩ := hab
+  have := ((mem_removedBy t t' w k).mp hk).2
+  rw [this] at h; cases h
+
+/-- every disappearance is logged: an entry that exists before an operation and not after it is a
+`removed` event of that operation -/
+theorem disappearance_logged (t : Tester) (o : Op) (v : Bool) (a : String) (tm : Int)
+    (hb : t.timeOf v a = some tm) (ha : (step t o).1.timeOf v a = none) : Ev.removed a v ∈ evOf t o := by
+  have hm : a ∈ removedBy t (step t o).1 v := (mem_removedBy _ _ _ _).mpr ⟨mem_keysOf t v a tm hb, ha⟩
+  unfold evOf
+  cases v
+  · exact List.mem_append_right _ (List.mem_append_left _ (List.mem_map.mpr ⟨a, hm, rfl⟩))
+  · exact List.mem_append_left _ (List.mem_map.mpr ⟨a, hm, rfl⟩)
+
+/-- … and a `removed` event is only logged for an entry that did disappear -/
+theorem removed_event_sound (t : Tester) (o : Op) (v : Bool) (a : String) (h : Ev.removed a v ∈ evOf t o) :
+    a ∈ t.keysOf v ∧ (step t o).1.timeOf v a = none := by
+  unfold evOf at h
+  rcases List.mem_append.mp h with h | h
+  · obtain ⟨k, hk, he⟩ := List.mem_map.mp h
+    simp only [Ev.removed.injEq] at he
+    obtain ⟨rfl, rfl⟩ := he
+    exact (mem_removedBy _ _ _ _).mp hk
+  · rcases List.mem_append.mp h with h | h
+    · obtain ⟨k, hk, he⟩ := List.mem_map.mp h
+      simp only [Ev.removed.injEq] at he
+      obtain ⟨rfl, rfl⟩ := he
+      exact (mem_removedBy _ _ _ _).mp hk
+    · obtain ⟨p, _, he⟩ := List.mem_map.mp h
+      cases he
+
+/-- when an operation removed the entry of (a, v), that removal is the newest event about (a, v) -/
+theorem lastEv_removed_of_step (t : Tester) (o : Op) (log : List Ev) (v : Bool) (a : String)
+    (h : Ev.removed a v ∈ evOf t o) : lastEv (evOf t o ++ log) a v = some (.removed a v) := by
+  -- the removals of an operation come before its measurement in the newest-first list
+  unfold lastEv
+  rw [List.find?_append]
+  have hsome : ((evOf t o).find? (Ev.about a v)).isSome := by
+    rw [List.find?_isSome]
+    exact ⟨_, h, by simp [Ev.about]⟩
+  cases hf : (evOf t o).find? (Ev.about a v) with
+  | none => rw [hf] at hsome; cases hsome
+  | some e =>
+    simp only [Option.some_or]
+    congr 1
+    -- the first match is a removal: the stored event, if any, comes after all removals
+    have hmem := List.mem_of_find?_eq_some hf
+    have hab := List.find?_some hf
+    cases e with
+    | removed a' v' =>
+      simp only [Ev.about, Bool.and_eq_true, beq_iff_eq] at hab
+      rw [hab.1, hab.2]
+    | stored ts a' v' =>
+      exfalso
+      simp only [Ev.about, Bool.and_eq_true, beq_iff_eq] at hab
+      obtain ⟨rfl, rfl⟩ := hab
+      -- a removal of (a', v') precedes it in the list, so `find?` cannot have skipped it
+      unfold evOf at hf h
+      rw [List.find?_append] at hf
+      cases v' with
+      | true =>
+        have : (((removedBy t (step t o).1 true).map (Ev.removed · true)).find? (Ev.about a' true)).isSome := by
+          rw [List.find?_isSome]
+          rcases List.mem_append.mp h with h | h
+          · exact ⟨_, h, by simp [Ev.about]⟩
+          · rcases List.mem_append.mp h with h | h
+            · obtain ⟨k, _, he⟩ := List.mem_map.mp h; cases he
+            · obtain ⟨p, _, he⟩ := List.mem_map.mp h; cases he
+        cases hq : ((removedBy t (step t o).1 true).map (Ev.removed · true)).find? (Ev.about a' true) with
+        | none => rw [hq] at this; cases this
+        | some e' =>
+          rw [hq] at hf
+          simp only [Option.some_or, Option.some.injEq] at hf
+          have := List.mem_of_find?_eq_some hq
+          rw [hf] at this
+          obtain ⟨k, _, he⟩ := List.mem_map.mp this
+          cases he
+      | false =>
+        have hnone : ((removedBy t (step t o).1 true).map (Ev.removed · true)).find? (Ev.about a' false) = none := by
+          rw [List.find?_eq_none]
+          intro x hx hab
+          obtain ⟨k, _, rfl⟩ := List.mem_map.mp hx
+          simp [Ev.about] at hab
+        rw [hnone, Option.none_or, List.find?_append] at hf
+        have : (((removedBy t (step t o).1 false).map (Ev.removed · false)).find? (Ev.about a' false)).isSome := by
+          rw [List.find?_isSome]
+          rcases List.mem_append.mp h with h | h
+          · obtain ⟨k, _, he⟩ := List.mem_map.mp h; cases he
+          · rcases List.mem_append.mp h with h | h
+            · exact ⟨_, h, by simp [Ev.about]⟩
+            · obtain ⟨p, _, he⟩ := List.mem_map.mp h; cases he
+        cases hq : ((removedBy t (step t o).1 false).map (Ev.removed · false)).find? (Ev.about a' false) with
+        | none => rw [hq] at this; cases this
+        | some e' =>
+          rw [hq] at hf
+          simp only [Option.some_or, Option.some.injEq] at hf
+          have := List.mem_of_find?_eq_some hq
+          rw [hf] at this
+          obtain ⟨k, _, he⟩ := List.mem_map.mp this
+          cases he
+
+/-- what one operation does to the stored time of (a', v), whatever the operation is -/
+theorem step_timeOf (t : Tester) (o : Op) (v : Bool) (a' : String) (tm : Int)
+    (h : (step t o).1.timeOf v a' = some tm) :
+    t.timeOf v a' = some tm ∨ probeOf t o = [(tm, a', v)] := by
+  cases o with
+  | clear now => exact Or.inl (clear_timeOf t now v a' tm h)
+  | query now a p =>
+    rcases (query_spec t now a p).timeOf v a' tm h with hold | ⟨hout, rfl, rfl⟩
+    · exact Or.inl hold
+    · right; simp only [probeOf, hout]
+
+/-- the measurement part of an operation's events says nothing about (a, v) unless the operation
+probed `a` with verdict `v` -/
+theorem storedPart_quiet (t : Tester) (o : Op) (v : Bool) (a : String)
+    (h : ∀ tm, probeOf t o ≠ [(tm, a, v)]) :
+    ((probeOf t o).map (fun p => Ev.stored p.1 p.2.1 p.2.2)).find? (Ev.about a v) = none := by
+  rw [List.find?_eq_none]
+  intro x hx hab
+  obtain ⟨p, hp, rfl⟩ := List.mem_map.mp hx
+  simp only [Ev.about, Bool.and_eq_true, beq_iff_eq] at hab
+  cases o with
+  | clear now => simp [probeOf] at hp
+  | query now a0 p0 =>
+    simp only [probeOf] at hp h
+    split at hp
+    · rename_i v0 hv0
+      rw [List.mem_singleton] at hp
+      subst hp
+      simp only at hab
+      apply h now
+      rw [hv0, hab.1, hab.2]
+    · cases hp
+
+/-- an entry exists only while the newest event about it is a measurement -/
+def EInv (t : Tester) (log : List Ev) : Prop :=
+  ∀ v a tm, t.timeOf v a = some tm → ∃ ts, lastEv log a v = some (.stored ts a v)
+
+theorem einv_step (t : Tester) (log : List Ev) (o : Op) (h : EInv t log) :
+    EInv (step t o).1 (evOf t o ++ log) := by
+  intro v a tm ht
+  unfold lastEv evOf
+  rw [List.append_assoc, List.append_assoc, List.find?_append, removedPart_quiet t _ true v a tm ht, Option.none_or,
+    List.find?_append, removedPart_quiet t _ false v a tm ht, Option.none_or, List.find?_append]
+  by_cases hp : ∃ ts, probeOf t o = [(ts, a, v)]
+  · obtain ⟨ts, hp⟩ := hp
+    refine ⟨ts, ?_⟩
+    rw [hp]
+    simp [Ev.about]
+  · have hq : ∀ ts, probeOf t o ≠ [(ts, a, v)] := fun ts e => hp ⟨ts, e⟩
+    rw [storedPart_quiet t o v a hq, Option.none_or]
+    rcases step_timeOf t o v a tm ht with hold | hnew
+    · exact h v a tm hold
+    · exact absurd hnew (hq tm)
+
+theorem einv_run (ops : List Op) (t : Tester) (log : List Ev) (h : EInv t log) :
+    EInv (runFrom t ops) (evlogFrom t log ops) := by
+  induction ops generalizing t log with
+  | nil => exact h
+  | cons o os ih => exact ih _ _ (einv_step t log o h)
+
+theorem new_einv (cfg : Config) : EInv (new cfg).1 [] := by
+  intro v a tm h; rw [new_timeOf] at h; cases h
+
+theorem runFrom_append (t : Tester) (ops1 ops2 : List Op) :
+    runFrom t (ops1 ++ ops2) = runFrom (runFrom t ops1) ops2 := by
+  unfold runFrom; rw [List.foldl_append]
+
+theorem evlogFrom_snoc (ops : List Op) (t : Tester) (acc : List Ev) (o : Op) :
+    evlogFrom t acc (ops ++ [o]) = evOf (runFrom t ops) o ++ evlogFrom t acc ops := by
+  induction ops generalizing t acc with
+  | nil => rfl
+  | cons o' os ih =>
+    show evlogFrom (step t o').1 (evOf t o' ++ acc) (os ++ [o]) = _
+    rw [ih]; rfl
+
+theorem logFrom_acc (ops : List Op) (t : Tester) (acc : List Probe) :
+    logFrom t acc ops = logFrom t [] ops ++ acc := by
+  induction ops generalizing t acc with
+  | nil => rfl
+  | cons o os ih =>
+    show logFrom (step t o).1 (probeOf t o ++ acc) os = logFrom (step t o).1 (probeOf t o ++ []) os ++ acc
+    rw [ih _ (probeOf t o ++ acc), ih _ (probeOf t o ++ [])]
+    simp
+
+/-- an address that has no entry in verdict `v`'s cache gets one only by a probe that answers `v` -/
+theorem absent_run (ops : List Op) (t : Tester) (v : Bool) (a : String) (h : t.timeOf v a = none)
+    (hq : ∀ tm, (tm, a, v) ∉ logFrom t [] ops) : (runFrom t ops).timeOf v a = none := by
+  induction ops generalizing t with
+  | nil => exact h
+  | cons o os ih =>
+    show (runFrom (step t o).1 os).timeOf v a = none
+    have hlog : logFrom t [] (o :: os) = logFrom (step t o).1 [] os ++ probeOf t o := by
+      show logFrom (step t o).1 (probeOf t o ++ []) os = _
+      rw [logFrom_acc]; simp
+    apply ih
+    · cases hs : (step t o).1.timeOf v a with
+      | none => rfl
+      | some tm =>
+        rcases step_timeOf t o v a tm hs with hold | hnew
+        · rw [h] at hold; cases hold
+        · exfalso
+          apply hq tm
+          rw [hlog, hnew]
+          exact List.mem_append_right _ (List.mem_singleton.mpr rfl)
+    · intro tm hm
+      apply hq tm
+      rw [hlog]
+      exact List.mem_append_left _ hm
+
 end CJ.Liveness
